@@ -136,14 +136,13 @@ theorem C17_bad_param_rejected_partial (m : Method) (hm : m ∈ table) (d : Doc)
 def C17_clean_faults_statement : Prop :=
   ∀ m ∈ table, ∀ (s : State) (a : Args) (e : String), (run cr m s a).2 ≠ .internal e
 
-/-- FALSE on the current code: `start_args('group:*')` — the group namespec resolves to no process and `process.namespec`
-    raises `AttributeError`, in every Supvisors state. -/
-theorem C17_clean_faults_refuted : ¬ C17_clean_faults_statement := by
-  intro h
-  have hw : ∃ m ∈ table, m.name = "start_args" ∧ (run cr m {} { isGroup := true }).2 = .internal "AttributeError" := by
-    decide
-  obtain ⟨m, hm, _, hr⟩ := hw
-  exact h m hm {} { isGroup := true } "AttributeError" hr
+/-- HOLDS on the current code, for every method, every state and every parameter valuation (the last exception was
+    `start_args('group:*')`, which dereferenced the missing process: repaired in /repo by 5b27e8c; the table is regenerated from the
+    source at every run, so the theorem is about what the code says now). -/
+theorem C17_clean_faults : C17_clean_faults_statement := by
+  intro m hm s a e
+  have h : ∀ m ∈ table, crashGuarded cr false false m.steps = true := by decide
+  exact no_internal_of_guarded cr false a e (by simp) m.steps false s (h m hm) (by simp)
 
 /-- every effect that raises without Master (`fsm.on_restart`, `fsm.on_shutdown`) is dominated by the check that a
     Master is known, and no method indexes a map with a raw parameter -/
